@@ -310,10 +310,21 @@ fn gen_comment(src: &mut Src) -> String {
     for _ in 0..n {
         body.push(POOL[src.below(POOL.len())]);
     }
-    match src.below(3) {
+    match src.below(6) {
         0 => format!("//{body}\n"),
         1 => format!("/*{body}*/"),
-        _ => format!("/*{body}/* {body} */{body}*/"),
+        2 => format!("/*{body}/* {body} */{body}*/"),
+        3 => {
+            // runs of stars inside the comment and in front of the closing delimiter (no `/` in
+            // the body, so no delimiter can form by accident)
+            let stars = |src: &mut Src| "*".repeat(src.below(5));
+            let a = stars(src);
+            let b = stars(src);
+            let c = stars(src);
+            format!("/*{a}{body}{b} {body}{c}*/")
+        }
+        4 => ["/**/", "/***/", "/****/", "/*****/", "/******/", "/** doc **/", "/* note **/", "/* a * b ** c ***/", "/*\n * x\n **/"][src.below(9)].to_string(),
+        _ => format!("//{body}*/ /* {body}\n"),
     }
 }
 
